@@ -85,7 +85,7 @@ def check_counter_keys(fx, rep, rule):
             same_ty = (not pty) or pty.replace("&", "").strip() == kt
             ordn = sum(1 for x in rep.instances.get(rule, []) if x.startswith(f"counter-key:{F.strip_generics(b['def'])}#")) + 1
             rep.oblige(as_it_stands and same_ty, rule, f"counter-key:{F.strip_generics(b['def'])}#{ordn}", F.loc(c["span"]), f"`{b['def']}` keys a counter table with `{T.short(k)[:50]}` (table key type `{kt}`) instead of the instruction offset it was given, as it stands: different offsets can share one counter, so the visit / fork limits are applied to the wrong instructions", sample={"rule": rule, "fn": b["def"], "key": T.short(k)[:40], "key_type": kt} if n_keys <= 3 else None)
-    rep.floor(rule, n_keys, 4, "keyed accesses to the visit / fork counter tables")
+    rep.floor(rule, n_keys, 2, "keyed accesses to the visit / fork counter tables")
 
 
 def check(fx, rep, tier):
@@ -242,18 +242,22 @@ def check(fx, rep, tier):
                             marked = True
             rep.oblige(marked, "R03.2", "true-after-mark", F.loc(n["span"]), "fork_to answers `true` without counting the fork against the target: the fork budget is never used up")
         names = [F.callee(c) or "" for c, _ in F.calls(root)]
-        rep.oblige(any("opcode::control::JumpDest" in x and "downcast_ref" in x for x in names), "R03.2", "target-is-jumpdest", F.loc(ft["span"]), "fork_to does not require the target to be a JUMPDEST: the number of fork counters is no longer bounded by the number of jump destinations")
+        from ..vmmodel import tests_opcode_type
+
+        rep.oblige(tests_opcode_type(fx, ft, "opcode::control::JumpDest"), "R03.2", "target-is-jumpdest", F.loc(ft["span"]), "fork_to does not require the target to be a JUMPDEST: the number of fork counters is no longer bounded by the number of jump destinations")
 
     # ---------------------------------------------------------------- R03.3
     avl = fx.body("vm::data::VisitedOpcodes::at_visit_limit")
     mv = fx.body("vm::data::VisitedOpcodes::mark_visited")
     if rep.anchor("R03.3", avl is not None and mv is not None, "VisitedOpcodes::{at_visit_limit, mark_visited}"):
         root = avl["hir"]["value"]
+        mut_avl = T.mutated_locals(root)
         cmps = [(n, ps) for n, ps in F.walk(root) if n.get("k") == "Binary" and n["op"] in ("Ge", "Gt", "Le", "Lt", "Eq") and "maximum_iterations_per_opcode" in str(T.term(n, T.Env()))]
         ok = False
         desc = "no comparison of the counter with the configured maximum"
         for n, ps in cmps:
-            t = T.term(n, T.Env())
+            # the count may be let-bound and may come from the type's own accessor (`self.visit_count(ip)?`): read through both
+            t = T.inline_calls(T.term(n, T.env_at(ps, n, mut_avl), mut_avl), fx, 2, (), lambda d: d.startswith("vm::data::"))
             l, r = t[2], t[3]
             op = t[1]
             l_is_max = "maximum_iterations_per_opcode" in str(l)
